@@ -7,6 +7,8 @@ mod c01;
 mod c10;
 mod c12;
 mod c13;
+#[cfg(feature = "rv")]
+mod c19;
 mod c18;
 mod c05;
 mod prog;
@@ -23,7 +25,13 @@ fn main() {
     let mut sink = common::Sink::new();
     match prop {
         "C18" => c18::run(&mut sink, thorough, seed),
-        "C01" | "C02" | "C09" | "C11" | "C14" | "C19" => c01::run(&mut sink, prop, thorough, seed),
+        "C01" | "C02" | "C09" | "C11" | "C14" => c01::run(&mut sink, prop, thorough, seed),
+        "C19" => {
+            // scanner language (IgnoredAny on every generated input) + raw capture (needs raw_value)
+            c01::run(&mut sink, prop, thorough, seed);
+            #[cfg(feature = "rv")]
+            c19::run(&mut sink, thorough, seed);
+        }
         "C10" => c10::run(&mut sink, thorough, seed),
         "C12" => c12::run(&mut sink, thorough, seed),
         "C13" => c13::run(&mut sink, thorough, seed),
@@ -53,6 +61,8 @@ fn replay(sink: &mut common::Sink, toks: &[&str]) {
         "pfx" => c10::replay(sink, toks),
         "stream" => c12::replay(sink, toks),
         "rfault" | "rfaultt" | "sfault" | "wfault" => c13::replay(sink, toks),
+        #[cfg(feature = "rv")]
+        "rawtop" | "rawstr" | "rawelems" => c19::replay(sink, toks),
         "esc" | "escbufs" | "hex4" | "hex4s" | "scan" => c05::replay(sink, toks),
         "serc" | "serp" | "serbufs" | "serbufx" | "disp" => c03::replay(sink, toks),
         _ => eprintln!("cannot replay op {}", toks[0]),
